@@ -19,6 +19,7 @@ type Eff struct {
 	Res string
 	D   int  // +n acquire, -n release
 	Sat bool // saturating release: releasing an unheld resource is not an error (idempotent release)
+	Set bool // assign: the count becomes D (flags)
 }
 
 type CondEff struct {
@@ -32,8 +33,12 @@ type TSpec struct {
 	// Instr gives the direct effects of an instruction (including calls with a table contract).
 	// handled=true stops further interpretation of a call (no summary lookup).
 	Instr func(in ssa.Instruction) (effs []Eff, handled bool)
+	// InstrSt is like Instr but may consult the path state (known boolean phi values).
+	InstrSt func(in ssa.Instruction, st *tsState) (effs []Eff, handled bool)
 	// Edge gives effects that happen when a particular CFG edge is taken (select cases, channel hand-off).
 	Edge func(b *ssa.BasicBlock, succ int) []Eff
+	// EdgeSt may consult the path state; feasible=false prunes the edge for that state.
+	EdgeSt func(b *ssa.BasicBlock, succ int, st *tsState) (effs []Eff, feasible bool)
 	// Cond gives conditional contracts of calls.
 	Cond func(in ssa.Instruction) (*CondEff, bool)
 	// UseSummaries enables bottom-up summaries for static callees (incl. closures) of the same program.
@@ -56,10 +61,23 @@ type tsState struct {
 	cnt   map[string]int
 	defs  map[string]int // encoded deferred effect group -> multiplicity
 	facts map[string]bool
+	bools map[string]bool // known constant values of boolean phis on this path
 }
 
 func newState() *tsState {
-	return &tsState{cnt: map[string]int{}, defs: map[string]int{}, facts: map[string]bool{}}
+	return &tsState{cnt: map[string]int{}, defs: map[string]int{}, facts: map[string]bool{}, bools: map[string]bool{}}
+}
+
+// BoolOf returns the path-known constant value of a boolean SSA value (constant or phi).
+func (s *tsState) BoolOf(v ssa.Value) (bool, bool) {
+	if b, ok := constBool(v); ok {
+		return b, true
+	}
+	if ph, ok := v.(*ssa.Phi); ok {
+		b, ok := s.bools[fmt.Sprintf("%p", ph)]
+		return b, ok
+	}
+	return false, false
 }
 
 func (s *tsState) clone() *tsState {
@@ -72,6 +90,9 @@ func (s *tsState) clone() *tsState {
 	}
 	for k, v := range s.facts {
 		n.facts[k] = v
+	}
+	for k, v := range s.bools {
+		n.bools[k] = v
 	}
 	return n
 }
@@ -95,6 +116,9 @@ func (s *tsState) key() string {
 	for k := range s.facts {
 		f = append(f, k)
 	}
+	for k, v := range s.bools {
+		f = append(f, fmt.Sprintf("%s:%v", k, v))
+	}
 	sort.Strings(f)
 	return strings.Join(parts, ";") + "|" + strings.Join(d, ";") + "|" + strings.Join(f, ";")
 }
@@ -117,6 +141,9 @@ func encEffs(effs []Eff) string {
 		if e.Sat {
 			sat = "~"
 		}
+		if e.Set {
+			sat = "="
+		}
 		p = append(p, fmt.Sprintf("%s%+d%s", e.Res, e.D, sat))
 	}
 	sort.Strings(p)
@@ -131,10 +158,12 @@ func decEffs(s string) []Eff {
 	for _, p := range strings.Split(s, ",") {
 		sat := strings.HasSuffix(p, "~")
 		p = strings.TrimSuffix(p, "~")
+		set := strings.HasSuffix(p, "=")
+		p = strings.TrimSuffix(p, "=")
 		i := strings.LastIndexAny(p, "+-")
 		var d int
 		fmt.Sscanf(p[i:], "%d", &d)
-		out = append(out, Eff{Res: p[:i], D: d, Sat: sat})
+		out = append(out, Eff{Res: p[:i], D: d, Sat: sat, Set: set})
 	}
 	return out
 }
@@ -168,6 +197,14 @@ func (sp *TSpec) clamp() int {
 
 func (sp *TSpec) apply(st *tsState, effs []Eff, in ssa.Instruction, b *ssa.BasicBlock, res *TSResult) {
 	for _, e := range effs {
+		if e.Set {
+			if e.D == 0 {
+				delete(st.cnt, e.Res)
+			} else {
+				st.cnt[e.Res] = e.D
+			}
+			continue
+		}
 		c := st.cnt[e.Res] + e.D
 		if c < 0 {
 			if e.Sat {
@@ -330,6 +367,13 @@ func (sp *TSpec) Analyze(fn *ssa.Function, entry *tsState, watch InstrPred) *TSR
 					sp.apply(st, effs, in, b, res)
 				}
 			}
+			if sp.InstrSt != nil {
+				for _, st := range states {
+					if e2, _ := sp.InstrSt(in, st); len(e2) > 0 {
+						sp.apply(st, e2, in, b, res)
+					}
+				}
+			}
 		}
 		if terminated {
 			continue
@@ -356,6 +400,37 @@ func (sp *TSpec) Analyze(fn *ssa.Function, entry *tsState, watch InstrPred) *TSR
 					}
 				}
 				ns := st.clone()
+				// boolean phis of the successor take the value of this edge
+				pi := -1
+				for k, pb := range s.Preds {
+					if pb == b {
+						pi = k
+					}
+				}
+				for _, sin := range s.Instrs {
+					ph, ok := sin.(*ssa.Phi)
+					if !ok {
+						break
+					}
+					if pi < 0 || pi >= len(ph.Edges) {
+						continue
+					}
+					key := fmt.Sprintf("%p", ph)
+					if bv, ok := st.BoolOf(ph.Edges[pi]); ok {
+						ns.bools[key] = bv
+					} else {
+						delete(ns.bools, key)
+					}
+				}
+				if sp.EdgeSt != nil {
+					effs, feasible := sp.EdgeSt(b, si, st)
+					if !feasible {
+						continue
+					}
+					if len(effs) > 0 {
+						sp.apply(ns, effs, b.Instrs[len(b.Instrs)-1], b, res)
+					}
+				}
 				if sp.Edge != nil {
 					if effs := sp.Edge(b, si); len(effs) > 0 {
 						sp.apply(ns, effs, b.Instrs[len(b.Instrs)-1], b, res)
